@@ -228,14 +228,20 @@ func (s *Solver) Check() string {
 			res = first
 		}
 	} else {
-		// kill the slower process unless it answers right away
+		// kill the slower process unless it answers soon. The int-blasting cvc5 is the one every arithmetic
+		// harness can be decided by on its own, so it gets seconds to finish (killing it means a respawn from
+		// the transcript, which was the fragile step under load); bit-blasting z3 is cut off at once.
+		other := alt
+		if first.who == alt {
+			other = s
+		}
+		grace := 20 * time.Millisecond
+		if strings.HasPrefix(other.kind, "cvc5") {
+			grace = 2 * time.Second
+		}
 		select {
 		case <-ch:
-		case <-time.After(20 * time.Millisecond):
-			other := alt
-			if first.who == alt {
-				other = s
-			}
+		case <-time.After(grace):
 			other.kill()
 			<-ch
 			atomic.AddInt64(&gStats.Fallbacks, 1)
